@@ -9,7 +9,7 @@ data on disk) and EIO injected into call k (the code's own error handling then r
 import os
 
 from . import c18
-from .c18 import (Sandbox, Recorder, Crash, Ids, snapshot, fs_json, canon_fs, entry_json, make_cset, gen_pre, gen_entries,
+from .c18 import (Recorder, Crash, Ids, snapshot, fs_json, canon_fs, entry_json, make_cset, gen_pre, gen_entries,
                   has_symlinked_ancestor, classify_exc, model_trace, env_json, resolve_entries, diff_fs, gen_remerge, next_build, _f, _d, _s, _e)
 
 PID = "C19"
@@ -20,6 +20,7 @@ OBLIGATIONS = [
     "Pkgcore.C19.merge_log_is_trajectory",
     "Pkgcore.C19.merge_crash_safe_counterexample",
     "Pkgcore.C19.atomic_replace_prefix",
+    "Pkgcore.C19.outside_paths_untouched",
     "Pkgcore.C19.crashSafe_bounded_iff",
 ]
 TRUSTED = c18.TRUSTED + [
@@ -33,9 +34,107 @@ ASSUMPTIONS = c18.ASSUMPTIONS + [
     "produce) are covered by the sampled runs only",
 ]
 RULE = ("random small contents trees over random pre-existing roots (generators of C18) and re-merges (the root holds an earlier build of the "
-        "same package: same data and mtime with other owner and/or mode, same-size new data, other mtime, other type, dropped and new entries); for each, every mutating call k of the real merge "
+        "same package: same data and mtime with other owner and/or mode, same-size new data, other mtime, other type, dropped and new entries) and upgrades of live programs; pre-existing files really carry "
+        "set-uid/set-gid/sticky/empty permission bits and have further hard-link names outside the contents set (own directory, top level, sibling); for each, every mutating call k of the real merge "
         "is a crash point (fresh identical root, killed before call k), plus half-write crashes and EIO injection at every k; "
         "non-trivial = a crash point of a merge that replaces at least one pre-existing non-directory path and lies strictly inside the merge")
+
+class Sandbox(c18.Sandbox):
+    """scratch root whose pre-existing files really carry the special permission bits of their node: chown(2) clears
+    set-uid/set-gid — for root as well — and the shared builder changes the owner after the mode, so a pre-existing
+    `04711` file used to be a plain `0711` one on disk; here the special bits are put back after the owner is set"""
+
+    def build(self, tree, mkroot=True):
+        super().build(tree, mkroot)
+        for nd in tree:
+            if nd["k"] in ("file", "fifo") and nd.get("link_to") is None and nd["mode"] & 0o7000:
+                os.chmod(self.path(nd["p"]), nd["mode"])
+
+
+# permission bits a live file can carry besides rwx: set-uid, set-gid, both, sticky, with and without x; and none at all
+SPECIAL_MODES = [0o4755, 0o4711, 0o2755, 0o6755, 0o4750, 0o2711, 0o2644, 0o1755, 0o4000, 0o6000, 0]
+STASH = "stash"      # a directory name no generator of contents uses: other names of live files go here
+
+
+def with_other_names(rng, pre, ents, p_mode=0.45, p_link=0.45):
+    """the same pre-existing root, but live regular files may carry special permission bits and may have further names
+    (hard links) that are NOT in the contents set: in a directory of their own, at the top level, or next to them.
+    What `ln`, a backup tool, a package splitting its files, or an attacker keeping an old set-id binary alive do."""
+    pre = [dict(n) for n in pre]
+    ent_paths = {tuple(e["p"]) for e in ents}
+    used = {tuple(n["p"]) for n in pre}
+    kinds = {tuple(n["p"]): n["k"] for n in pre}
+    extra, stash_made = [], (STASH,) in used
+    for n in list(pre):
+        if n["k"] != "file" or n.get("link_to") is not None:
+            continue
+        if rng.random() < p_mode:
+            n["mode"] = rng.choice(SPECIAL_MODES)
+        for _ in range(rng.choice([1, 1, 2])):
+            if rng.random() >= p_link:
+                continue
+            where = rng.random()
+            par = tuple(n["p"][:-1])
+            if where < 0.5:
+                q = (STASH, "kept-%d" % len(extra))
+            elif where < 0.75 or any(kinds.get(par[:i]) != "dir" for i in range(1, len(par) + 1)):
+                q = (".other-%d" % len(extra),)
+            else:
+                q = par + (n["p"][-1] + ".orig",)
+            if q in used or q in ent_paths or any(q[:i] in ent_paths for i in range(1, len(q))) \
+                    or any(tuple(e["p"])[:len(q)] == q for e in ents) or q[-1].endswith("#new"):
+                continue
+            if q[0] == STASH and not stash_made:
+                extra.append({"p": [STASH], "k": "dir", "mode": 0o700, "uid": MY(0), "gid": MY(1), "mtime": 5})
+                used.add((STASH,))
+                stash_made = True
+            used.add(q)
+            extra.append({"p": list(q), "k": "file", "link_to": list(n["p"]), "data": n["data"], "mode": n["mode"], "uid": n["uid"],
+                          "gid": n["gid"], "mtime": n["mtime"]})
+    return pre + extra
+
+
+def MY(i):
+    return (c18.MY_UID, c18.MY_GID)[i]
+
+
+def gen_upgrade(rng):
+    """a directory of live programs — some set-uid / set-gid, some with other names elsewhere — and their next version:
+    new content for most of them (same or other size, mode, owner), some as a hard-link group of the new build
+    (do_link's '#new' + rename over a live file), some unchanged"""
+    top = rng.choice([[], ["bin"], ["usr", "bin"]])
+    pre = [_d(top[:i], mode=0o755) for i in range(1, len(top) + 1)]
+    ents = [_e(top[:i], "dir", mode=0o755, mtime=1111) for i in range(1, len(top) + 1)]
+    names = rng.sample(["su", "sg", "ls", "ping", "mount", "x y", "a"], rng.randint(1, 3))
+    group = None
+    for nm in names:
+        uid, gid = c18.gen_owner(rng)
+        old = _f(top + [nm], c18.gen_data(rng) or "6f6c64", mode=rng.choice(SPECIAL_MODES[:8] + [0o755, 0o644]), uid=uid, gid=gid,
+                 mtime=rng.choice([5, 1000, 77777]))
+        pre.append(old)
+        r = rng.random()
+        if r < 0.12:
+            continue                                   # not part of the new build
+        e = _e(top + [nm], "reg", data=old["data"] if r < 0.25 else (c18.gen_data(rng) or "6e6577"), src=rng.choice(["mem", "file"]),
+               mode=rng.choice([old["mode"], 0o4755, 0o2755, 0o755, 0o4711]) or 0o755, mtime=rng.choice([old["mtime"], 2000, 4242]))
+        e["uid"], e["gid"] = rng.choice([(old["uid"], old["gid"]), c18.gen_owner(rng)])
+        if rng.random() < 0.35:
+            if group is None:
+                group = dict(e, key=[1, rng.randint(2, 6)])
+                e = dict(group, p=e["p"])
+            else:
+                e = dict(group, p=e["p"])
+        if rng.random() < 0.1:
+            e = _e(top + [nm], rng.choice(["sym", "fifo"]), target="busybox")
+        ents.append(e)
+    if rng.random() < 0.3:
+        ents.append(_e(top + ["new-tool"], "reg", mode=0o4755))
+    if not any(e["k"] != "dir" for e in ents):
+        ents.append(_e(top + [names[0]], "reg", mode=0o4755))
+    rng.shuffle(ents)
+    ents.sort(key=lambda e: e["k"] != "dir")         # (contents order among non-directories stays random)
+    return with_other_names(rng, pre, ents, p_mode=0.0, p_link=0.7), ents
+
 
 CORPUS = [
     # replace a file, a symlink and a fifo through their '#new' siblings; create a new file next to them
@@ -60,6 +159,25 @@ CORPUS = [
     ([_d(["b"]), _f(["b", "t"], "6e6577", mode=0o755, mtime=4242), _f(["b", "u"], "6e6577", mode=0o4711, mtime=4242)],
      [_e(["b"], "dir"), _e(["b", "t"], "reg", mode=0o700, uid=1234 if c18.CAN_CHOWN else c18.MY_UID, gid=1234 if c18.CAN_CHOWN else c18.MY_GID, src="file"),
       _e(["b", "u"], "reg", mode=0o755, uid=1000 if c18.CAN_CHOWN else c18.MY_UID, src="file")], True),
+]
+
+
+CORPUS += [
+    # a live set-uid program that has a second name outside the contents set is replaced by its next version (copyfile: '#new' + rename);
+    # an ordinary program next to it; the other name must keep inode, content and 04755 throughout
+    ([_d(["bin"]), _d(["stash"], mode=0o700), _f(["bin", "su"], "6f6c64206f6c64", mode=0o4755), _f(["bin", "ls"], "6f6c64", mode=0o755),
+      _f(["stash", "kept-su"], link_to=["bin", "su"])],
+     [_e(["bin"], "dir"), _e(["bin", "su"], "reg", mode=0o4755, data="6e6577206e6577206e6577", src="file"), _e(["bin", "ls"], "reg", mode=0o755)], True),
+    # the same through do_link: the new build ships su and sg as one hard-link group, both live ones are set-id and have other names
+    ([_d(["bin"]), _f(["bin", "su"], "6f31", mode=0o4711), _f(["bin", "sg"], "6f32", mode=0o2755), _f(["bin", "su.orig"], link_to=["bin", "su"]),
+      _f([".other"], link_to=["bin", "sg"])],
+     [_e(["bin"], "dir"), _e(["bin", "su"], "reg", mode=0o6755, key=[1, 5]), _e(["bin", "sg"], "reg", mode=0o6755, key=[1, 5])], False),
+    # two live names of one set-gid file, both replaced by separate files of the new build; a third name stays
+    ([_f(["a"], "6f", mode=0o2755), _f(["b"], link_to=["a"]), _f(["c"], link_to=["a"])],
+     [_e(["a"], "reg", mode=0o755), _e(["b"], "reg", data="62", mode=0o2755)], True),
+    # live file without any permission bit (and another name) replaced; live set-uid file replaced by a symlink
+    ([_f(["z"], "6f", mode=0), _f(["z2"], link_to=["z"]), _f(["s"], "6f", mode=0o4755), _f(["s2"], link_to=["s"])],
+     [_e(["z"], "reg", mode=0o600), _e(["s"], "sym", target="z")], True),
 ]
 
 
@@ -151,15 +269,26 @@ def run(ctx):
     if ctx.replay_cases:
         cases = [(c["pre"], c["entries"], c["offset"], "replay") for c in ctx.replay_cases if "entries" in c] + cases
     for _ in range(ctx.n(60, 1600)):
-        if rng.random() < 0.45:
+        r = rng.random()
+        if r < 0.15:
+            # upgrade of live programs: special permission bits, other names outside the contents set
+            pre, ents = gen_upgrade(rng)
+            cases.append((pre, ents, rng.random() < 0.5, "upgrade"))
+            continue
+        if r < 0.55:
             # re-merge: the root already holds an earlier build (same data and mtime, other owner/mode, …)
             pre, ents = gen_remerge(rng, nmax=4)
             if ents:
-                cases.append((pre, ents[:6], rng.random() < 0.5, "remerge"))
+                ents = ents[:6]
+                if rng.random() < 0.5:
+                    pre = with_other_names(rng, pre, ents, p_mode=0.2)
+                cases.append((pre, ents, rng.random() < 0.5, "remerge"))
             continue
         pre = gen_pre(rng, size=rng.randint(1, 6))
         ents = gen_entries(rng, pre, wellformed=rng.random() < 0.9)[: rng.randint(1, 5)]
         if ents:
+            if rng.random() < 0.5:
+                pre = with_other_names(rng, pre, ents)
             cases.append((pre, ents, rng.random() < 0.5, "random"))
     reqs, runs = [], []
     for pre, ents, off, origin in cases:
@@ -230,6 +359,17 @@ def run(ctx):
         ctx.count("calls_%s" % (min(full["n"] // 10, 6) * 10))
         replaces = sum(1 for e in case["entries"] if e["k"] != "dir" and tuple(e["p"]) in full["pre"]
                        and full["pre"][tuple(e["p"])]["k"] != "dir")
+        names_of = {}
+        for q, nd in full["pre"].items():
+            if nd["k"] == "file":
+                names_of.setdefault(nd["id"], []).append(q)
+        ent_locs = {tuple(e["p"]) for e in case["entries"]}
+        for e in case["entries"]:
+            nd = full["pre"].get(tuple(e["p"]))
+            if e["k"] != "dir" and nd is not None and nd["k"] == "file":
+                ctx.count("replaced_live_file" + ("_setid" if nd["mode"] & 0o6000 else "_sticky" if nd["mode"] & 0o1000 else "_mode0" if nd["mode"] == 0 else "")
+                          + ("_with_name_outside_contents" if any(q not in ent_locs for q in names_of[nd["id"]]) else ""))
+        ctx.count("origin_" + str(case["origin"]))
         rt = model_trace(full["ops"])
         model_ok = m["result"] == res and rt == m["trace"]
         if not model_ok:
@@ -293,7 +433,8 @@ def run(ctx):
 LEVEL_TEXT = ("Kernel-checked Lean 4 theorem over the model of merge_contents (C18): for every pre-existing file system, contents set and every "
               "prefix of the logged system calls of a merge, each path that existed before holds its complete old or its complete new content "
               "and metadata (directories: same inode, permissions kept, owner old or recorded) and nothing outside the contents set but '#new' "
-              "siblings is created or modified; the replace-by-rename lemma is proved for every prefix. Tied to the code by killing real merges "
+              "siblings is created or modified (in particular a hard link, outside the contents set, to a file that is being replaced keeps inode, "
+              "content and metadata at every crash point: outside_paths_untouched); the replace-by-rename lemma is proved for every prefix. Tied to the code by killing real merges "
               "before every mutating call (and inside writes, and with EIO faults) and comparing the surviving file system with the model's "
               "prefix state and with the Lean specification.")
 LEVEL_NOTE = ("Partial: a directory entry merged over a (dangling) symlink is unlinked before the directory is made (open finding; the theorem "
